@@ -670,7 +670,13 @@ class LpmRun:
         if closed:
             out.insert(at, {'k': 'cancel', 'end': True})
         elif self.raised is not None:
-            if not src_raised:
+            # the exception is the source's own only if every submitted result was handed out
+            # first (the error drain found the queue empty); otherwise a `result()` raised it
+            n_sub = sum(1 for e in out if e['k'] == 'submit')
+            n_res = sum(1 for e in out if e['k'] == 'result' and not isinstance(e.get('r'), dict))
+            if src_raised and n_res == n_sub:
+                out.insert(at, {'k': 'drained'})
+            else:
                 out.insert(at, {'k': 'result', 'r': {'raise': self.raised}})
         elif not self.deadlock:
             out.insert(at, {'k': 'drained'})
